@@ -1379,3 +1379,40 @@ canary('c19-oversize-recoverable-error', 'C19', CONN, """                return 
             }
 
             let mut buf = vec![0u8; len];""", 'body-unread')
+# benign variants for the round-4 rules
+_NESTED_OLD = """    let (input, old_index_term) = parse_term(input, cache)?;
+    let old_index = match old_index_term {
+        OwnedTerm::Integer(i) => u32::try_from(i).ok(),
+        OwnedTerm::BigInt(ref big) => u32_from_bigint(big),
+        _ => None,
+    }
+    .ok_or_else(|| nom::Err::Failure(NomError::new(input, ErrorKind::Tag)))?;
+
+    let (input, old_uniq_term) = parse_term(input, cache)?;
+    let old_uniq = match old_uniq_term {
+        OwnedTerm::Integer(i) => u32::try_from(i).ok(),
+        OwnedTerm::BigInt(ref big) => u32_from_bigint(big),
+        _ => None,
+    }
+    .ok_or_else(|| nom::Err::Failure(NomError::new(input, ErrorKind::Tag)))?;
+"""
+_NESTED_NEW = """    let (input, first) = parse_term(input, cache)?;
+    let a = nested_u32(&first).ok_or_else(|| nom::Err::Failure(NomError::new(input, ErrorKind::Tag)))?;
+    let (input, second) = parse_term(input, cache)?;
+    let b = nested_u32(&second).ok_or_else(|| nom::Err::Failure(NomError::new(input, ErrorKind::Tag)))?;
+    let (old_index, old_uniq) = (a, b);
+"""
+_NESTED_HELPER = """fn nested_u32(term: &OwnedTerm) -> Option<u32> {
+    match term {
+        OwnedTerm::Integer(i) => u32::try_from(*i).ok(),
+        OwnedTerm::BigInt(big) => u32_from_bigint(big),
+        _ => None,
+    }
+}
+
+fn parse_new_fun_ext<'a>(input: &'a [u8], cache: &AtomCache) -> NomResult<'a, OwnedTerm> {"""
+for _pid in ('C01', 'C03', 'C13'):
+    benign('benign-%s-fun-nested-helper' % _pid.lower(), _pid, 'crates/erltf/src/decoder.rs', _NESTED_OLD, _NESTED_NEW,
+           more=[('crates/erltf/src/decoder.rs', "fn parse_new_fun_ext<'a>(input: &'a [u8], cache: &AtomCache) -> NomResult<'a, OwnedTerm> {", _NESTED_HELPER)])
+    canary('%s-fun-nested-helper-crossed' % _pid.lower(), _pid, 'crates/erltf/src/decoder.rs', _NESTED_OLD, _NESTED_NEW.replace("(a, b);", "(b, a);"), 'ORDER:',
+           more=[('crates/erltf/src/decoder.rs', "fn parse_new_fun_ext<'a>(input: &'a [u8], cache: &AtomCache) -> NomResult<'a, OwnedTerm> {", _NESTED_HELPER)])
